@@ -13,11 +13,18 @@ import Mhd.Model.Tmo
 namespace Mhd.Tmo
 
 /-- `MHD_connection_epoll_update_` for a connection whose event-loop info is READ -/
-def epollUpdate (d : Daemon) (i : Id) : Daemon :=
+def epollArm (d : Daemon) (i : Id) : Daemon :=
   let c := d.c i
-  if d.cfg.epoll ∧ c.suspended = false ∧ c.inSet = false ∧ c.readReady = false then
+  if d.cfg.epoll ∧ c.suspended = false ∧ c.inSet = false ∧ c.readReady = false ∧ procWait c = false then
     { (d.set i { c with inSet := true }) with kq := d.kq ++ [i] }
   else d
+
+/-- … "Make sure that connection waiting for processing will be processed": a connection in a PROCESS
+    wait state is queued in `eready` -/
+def epollQueue (d : Daemon) (i : Id) : Daemon :=
+  if d.cfg.epoll ∧ procWait (d.c i) = true ∧ i ∉ d.eready then { d with eready := i :: d.eready } else d
+
+def epollUpdate (d : Daemon) (i : Id) : Daemon := epollArm (epollQueue d i) i
 
 /-- tail of `MHD_connection_handle_idle` for a connection that is not closed: the timeout check -/
 def idleCheck (d : Daemon) (i : Id) : Daemon × List Event :=
@@ -31,17 +38,46 @@ def handleIdle (d : Daemon) (i : Id) : Daemon × List Event :=
   if (d.c i).closed then (cleanupConnection d i, [])
   else idleCheck d i
 
+/-- the part of `MHD_connection_handle_idle` that offers upload data left in the read buffer to the
+    application again (`process_request_body`: one handler call when the handler leaves data) -/
+def bufAfterCall (c : Conn) : Nat := if c.slow then c.buf - 1 else 0
+
+def procBuf (d : Daemon) (i : Id) : Daemon :=
+  let c := d.c i
+  if c.closed = false ∧ c.suspended = false ∧ c.buf > 0 then d.set i { c with buf := bufAfterCall c } else d
+
+/-- `MHD_connection_handle_idle` when no read preceded it in this `call_handlers` -/
+def handleIdleP (d : Daemon) (i : Id) : Daemon × List Event := handleIdle (procBuf d i) i
+
+/-- the end of `call_handlers`: the daemon-wide flag "some connection has work pending" -/
+def notePending (v : Variant) (d : Daemon) (i : Id) : Daemon :=
+  if v.pendAccum then
+    if d.dataPending = false ∧ procWait (d.c i) = true then { d with dataPending := true } else d
+  else { d with dataPending := procWait (d.c i) }
+
+/-- upload bytes in the read buffer after `recv` (only a POST body is counted) -/
+def bufAfterRead (c : Conn) : Nat := if c.kind = Kind.post then c.buf + c.unreadN else 0
+
+/-- the connection record after a successful `recv` -/
+def readRec (c : Conn) : Conn := { c with unread := false, unreadN := 0, readReady := false, buf := bufAfterRead c }
+
+/-- the upload call of the scripted handler: takes the data (all of it, or one byte) … -/
+def callRec (c : Conn) : Conn := { c with aware := true, buf := bufAfterCall c }
+
+/-- … or takes all of it and suspends the connection -/
+def suspRec (c : Conn) : Conn := { c with aware := true, wantSusp := false, buf := 0 }
+
 /-- `MHD_connection_handle_read` with data available, followed by the part of the state machine
     that calls the application (which consumes the data and may suspend the connection) -/
 def readData (v : Variant) (d : Daemon) (i : Id) : Daemon × List Event :=
   let c := d.c i
-  let d1 := d.set i { c with unread := false, readReady := false }
+  let d1 := d.set i (readRec c)
   let d2 := updateLastActivity v d1 i
   let c2 := d2.c i
   if c2.kind = Kind.post then
     if c2.wantSusp then
-      (internalSuspend (d2.set i { c2 with aware := true, wantSusp := false }) i, [Event.suspended i])
-    else (d2.set i { c2 with aware := true }, [])
+      (internalSuspend (d2.set i (suspRec c2)) i, [Event.suspended i])
+    else (d2.set i (callRec c2), [])
   else (d2, [])
 
 /-- `MHD_connection_close_` with a code other than TIMEOUT_REACHED -/
@@ -59,12 +95,16 @@ def eofCode (k : Kind) : Nat := match k with
   | _ => 5
 
 /-- `call_handlers` in the select loop; `rReady` = the socket was in the read set -/
-def callHandlersSel (v : Variant) (d : Daemon) (i : Id) (rReady : Bool) : Daemon × List Event :=
+def callHandlersSel0 (v : Variant) (d : Daemon) (i : Id) (rReady : Bool) : Daemon × List Event :=
   let c := d.c i
   if c.closed then handleIdle d i
-  else if rReady ∧ c.unread then seq2 (readData v d i) (fun d => handleIdle d i)
-  else if rReady ∧ c.peerClosed then seq2 (closeOther d i (eofCode c.kind)) (fun d => handleIdle d i)
-  else handleIdle d i
+  else if rReady ∧ c.unread ∧ c.buf = 0 then seq2 (readData v d i) (fun d => handleIdle d i)
+  else if rReady ∧ c.peerClosed ∧ c.buf = 0 then seq2 (closeOther d i (eofCode c.kind)) (fun d => handleIdle d i)
+  else handleIdleP d i
+
+def callHandlersSel (v : Variant) (d : Daemon) (i : Id) (rReady : Bool) : Daemon × List Event :=
+  let r := callHandlersSel0 v d i rReady
+  (notePending v r.1 i, r.2)
 
 /-- the loop over `daemon->connections` of `internal_run_from_select` (from the tail).
     Unless `savePrev`, `pos->prev` is read after `call_handlers`: it is NULL when the
@@ -79,7 +119,7 @@ def travSel (v : Variant) (rs : List Id) : List Id → Daemon → Daemon × List
 /-- one round of the external-select loop -/
 def roundSelect (v : Variant) (d : Daemon) : Daemon × List Event :=
   -- MHD_get_fdset2 + select(0): taken before anything else happens
-  let rs := d.conns.filter fun i => !(d.c i).closed && ((d.c i).unread || (d.c i).peerClosed)
+  let rs := d.conns.filter fun i => !(d.c i).closed && ((d.c i).unread || (d.c i).peerClosed) && (d.c i).buf == 0
   let d1 := if d.cfg.allowSuspend then resumeSuspended v d else d
   let d2 := { d1 with dataPending := false }
   seq2 (seq2 (processNew v d2) (fun d => travSel v rs d.conns.reverse d)) cleanupAll
@@ -102,14 +142,14 @@ def epollWait (d : Daemon) : Daemon :=
 /-- the loop over the manual-timeout list of `MHD_epoll` (from the tail, all of it) -/
 def scanManual : List Id → Daemon → Daemon × List Event
   | [], d => (d, [])
-  | i :: rest, d => seq2 (handleIdle d i) (scanManual rest)
+  | i :: rest, d => seq2 (handleIdleP d i) (scanManual rest)
 
 /-- the loop over the normal-timeout list of `MHD_epoll`: from the tail until the first
     connection that is not in state CLOSED afterwards -/
 def scanNormal : List Id → Daemon → Daemon × List Event
   | [], d => (d, [])
   | i :: rest, d =>
-    let r := handleIdle d i
+    let r := handleIdleP d i
     if (r.1.c i).closed then seq2 r (scanNormal rest) else r
 
 /-- `call_handlers` for a connection of the eready list -/
@@ -120,17 +160,23 @@ def callHandlersE0 (v : Variant) (d : Daemon) (i : Id) : Daemon × List Event :=
     if c.closed then handleIdle d i
     else seq2 (closeOther d i 1) (fun d => handleIdle d i)
   else if c.closed then handleIdle d i
+  else if c.buf > 0 then handleIdleP d i
   else if c.readReady then
     if c.unread then seq2 (readData v d i) (fun d => handleIdle d i)
     else if c.peerClosed then seq2 (closeOther d i (eofCode c.kind)) (fun d => handleIdle d i)
     else handleIdle (d.set i { c with readReady := false }) i
   else handleIdle d i
 
+/-- … with the end of `call_handlers` (`force_close` returns before the flag is looked at) -/
+def callHandlersE1 (v : Variant) (d : Daemon) (i : Id) : Daemon × List Event :=
+  let r0 := callHandlersE0 v d i
+  if i ∉ d.cleanup ∧ (d.c i).errFlag then r0 else (notePending v r0.1 i, r0.2)
+
 /-- … followed by the eready-removal rule of `MHD_epoll` -/
 def callHandlersE (v : Variant) (d : Daemon) (i : Id) : Daemon × List Event :=
-  let r := callHandlersE0 v d i
+  let r := callHandlersE1 v d i
   let c' := r.1.c i
-  if c'.suspended = false ∧ (c'.closed ∨ c'.readReady = false) then
+  if c'.suspended = false ∧ (c'.closed ∨ (c'.readReady = false ∧ procWait c' = false)) then
     ({ r.1 with eready := without r.1.eready i }, r.2)
   else r
 
@@ -159,6 +205,10 @@ inductive Op
   | send (i : Id)
   /-- the client sends one more byte of a request line that never ends -/
   | sendp (i : Id)
+  /-- the client sends (the head of a POST and) k body bytes in one piece -/
+  | sendn (i : Id) (k : Nat)
+  /-- from now on the handler of `i` takes one upload byte per call -/
+  | slow (i : Id)
   | cclose (i : Id)
   | tick (ms : Nat)
   | tickback (ms : Nat)
@@ -175,10 +225,10 @@ def maxConns : Nat := 8
 def Daemon.started (d : Daemon) (i : Id) : Bool := d.conns.contains i || d.susp.contains i
 
 /-- a client byte reaches the socket -/
-def clientData (d : Daemon) (i : Id) (k : Kind) : Daemon :=
+def clientData (d : Daemon) (i : Id) (k : Kind) (n : Nat := 1) : Daemon :=
   let c := d.c i
   if d.newL.contains i || d.started i then
-    let d1 := d.set i { c with unread := true, kind := k }
+    let d1 := d.set i { c with unread := true, unreadN := c.unreadN + n, kind := k }
     if d1.cfg.epoll ∧ i ∈ d1.conns ∧ c.inSet ∧ i ∉ d1.kq then { d1 with kq := d1.kq ++ [i] } else d1
   else d.set i { c with kind := k }
 
@@ -194,6 +244,12 @@ def step (v : Variant) (d : Daemon) : Op → Option (Daemon × List Event)
   | .send i =>
     if i ∈ d.used ∧ (d.c i).peerClosed = false ∧ (d.c i).kind ≠ Kind.frag
     then some (clientData d i Kind.post, []) else none
+  | .sendn i k =>
+    if i ∈ d.used ∧ (d.c i).peerClosed = false ∧ (d.c i).kind ≠ Kind.frag ∧ 1 ≤ k ∧ k ≤ 8
+    then some (clientData d i Kind.post k, []) else none
+  | .slow i =>
+    if i ∈ d.used ∧ (d.c i).wantSusp = false ∧ (d.c i).suspended = false
+    then some (d.set i { (d.c i) with slow := true }, []) else none
   | .sendp i =>
     if i ∈ d.used ∧ (d.c i).peerClosed = false ∧ (d.c i).kind ≠ Kind.post
     then some (clientData d i Kind.frag, []) else none
@@ -203,7 +259,7 @@ def step (v : Variant) (d : Daemon) : Op → Option (Daemon × List Event)
   | .tickback ms => if ms ≤ d.now then some ({ d with now := d.now - ms, back := d.back + ms }, []) else none
   | .setTimeout i s =>
     if d.started i ∧ s ≤ 4000000 then some (setTimeout v d i s, []) else none
-  | .susp i => if i ∈ d.used then some (d.set i { (d.c i) with wantSusp := true }, []) else none
+  | .susp i => if i ∈ d.used ∧ (d.c i).slow = false then some (d.set i { (d.c i) with wantSusp := true }, []) else none
   | .resume i =>
     if d.started i ∧ (d.c i).suspended ∧ d.cfg.allowSuspend then some (resumeRequest d i, []) else none
   | .round => some (round v d)
